@@ -465,6 +465,36 @@ def own_profile_again(chk):
         hf.hook.remove_function(hf)
 
 
+def reused_orphan_roll(chk):
+    """a roll taken from a pass of a line that was dropped is a roll template like any other: a new pass built from it works on a copy, solving the new pass
+    does not write into the template, and editing the template afterwards does not reach into the solved pass"""
+    import gc
+    from pyroll.core import RollPass, Roll, CircularOvalGroove, PassSequence
+    hf = RollPass.Profile.flow_stress(flow_stress)
+    try:
+        line = PassSequence([RollPass(label="old", roll=Roll(groove=CircularOvalGroove(depth=8e-3, r1=6e-3, r2=40e-3), nominal_radius=160e-3, rotational_frequency=1), gap=2e-3)])
+        line.solve(incoming())
+        template = line[0].roll
+        del line
+        gc.collect()
+        w = Watch()
+        w.add("the roll taken from the dropped pass (used as template)", template)
+        new = RollPass(label="new", roll=template, gap=3e-3)
+        new.solve(incoming())
+        chk.cov['evaluations'] += 1
+        if new.roll is template:
+            return chk.fail('side-effect', "a pass built from a roll whose former pass is gone uses that very object as its own roll (a template is copied)",
+                            {'case': 'orphan roll as template'})
+        if not w.check(chk, "a pass built from the roll of a dropped pass, then solved", {'case': 'orphan roll as template'}):
+            return
+        before = float(new.roll.nominal_radius)
+        template.nominal_radius = 0.5
+        if float(new.roll.nominal_radius) != before:
+            return chk.fail('side-effect', "editing the template roll after the new pass was solved changes the pass's own roll", {'case': 'orphan roll as template'})
+    finally:
+        hf.hook.remove_function(hf)
+
+
 def run(chk):
     try:
         txt, info = mutations_ts.generate()
@@ -504,6 +534,8 @@ def run(chk):
             histories(chk, rng)
     if not chk.failures:
         own_profile_again(chk)
+    if not chk.failures:
+        reused_orphan_roll(chk)
     chk.cov['distinct_nontrivial'] += len(cases)
     chk.sample({'layout': 'explicit rotators 45 then 90', 'operations': ['solve', 'stage']})
     chk.cov['rule'] = ("six layouts (flat, disk elements, nested sequences, rotators 45/90/180 in a row, cooling pipe), each with a random order of: solve, "
